@@ -272,6 +272,17 @@ def rule_gadgets(repo, rule):
             else:
                 rule.violation(dm.loc(arm), dm.fq, "%s.%s(%s)" % (r, meth, ", ".join(args or [])), "range check missing or applied to "
                                "the wrong value: %s is not enforced, so the prover may shift the quotient" % why, "divmod/%s" % meth)
+        # the relation is over the FIELD: quotient * divisor must not wrap around, so the quotient needs a range bound too
+        RANGE = ("assert_positive", "assert_range", "check_positive", "to_bits", "assert_lt", "assert_le", "assert_gt", "assert_ge")
+        qhit = [c for s in arm.body for c in ast.walk(s) if isinstance(c, ast.Call) and isinstance(c.func, ast.Attribute)
+                and c.func.attr in RANGE and any(isinstance(x, ast.Name) and x.id == q for x in ast.walk(c.func.value))]
+        if qhit:
+            rule.ok(dm.loc(qhit[0]), dm.fq, norm(qhit[0]), "quotient is range-bounded (no wrap-around of quotient * divisor in the field)")
+        else:
+            rule.violation(dm.loc(allocs[q]), dm.fq, "%s = %s; no range check on %s" % (q, norm(allocs[q].value), q),
+                           "the quotient witness is a free field element: for any remainder r' in [0, divisor) the assignment "
+                           "quotient = (dividend - r') * inv(divisor) satisfies every constraint, so the remainder (and quotient) "
+                           "is not determined by the operands", "divmod/quotient-range")
         rets = [n for s_ in arm.body for n in ast.walk(s_) if isinstance(n, ast.Return) and n.value is not None and norm(n.value) != "NotImplemented"]
         if rets and norm(rets[0].value).replace(" ", "") in ("(%s,%s)" % (q, r),):
             rule.ok(dm.loc(rets[0]), dm.fq, "returns (quotient, remainder)")
@@ -428,15 +439,17 @@ def check(repo, rep, tier):
                        "the constraints / range checks that make up each gadget (as polynomial relations over the gadget's own "
                        "witnesses).")
     rep.trusted = ["Pinocchio zero-test, sign-test and division gadgets are sound when all their listed constraints are present"]
-    rep.not_decided = ["uniqueness of results over ALL assignments to auxiliary witnesses (algebra over the solution set: solver "
-                       "family) - e.g. __divmod__ never range-checks the quotient, so over the field x % 2 == 0 is provable for "
-                       "odd x with quo = (x)*inv(2); finding that needs a solver"]
+    rep.not_decided = ["uniqueness of results over ALL assignments to auxiliary witnesses in general (algebra over the solution "
+                       "set: solver family); decided here only through the per-gadget obligation lists"]
     r1 = rep.rule("R-C02-1", "no dangling witness", floor=12)
     rule_dangling(repo, r1)
     r2 = rep.rule("R-C02-2", "unconstrained Boolean constructions are Boolean-closed polynomials", floor=8)
     rule_boolean(repo, r2)
     r3 = rep.rule("R-C02-3", "gadget obligations", floor=20)
     rule_gadgets(repo, r3)
+    r5 = rep.rule("R-C02-5", "emission is memoryless: constraints tie THIS call's operands, never a cached earlier result", floor=4)
+    from .memoryless import rule_memoryless
+    rule_memoryless(repo, r5)
     r4 = rep.rule("R-C02-4", "constraints are not emitted under a stale guard: guard state is restored on every exit (shared with C08)", floor=10)
     from .c08 import guard_discipline
     guard_discipline(repo, r4)
